@@ -83,6 +83,14 @@ def mk(shape, v):
     return A2(x=a, y=b)
   if shape == 'B':
     return B(x=a)
+  # containers holding an object whose class opted out of symbolic comparison (its == / hash() are identity based,
+  # pg.eq / pg.hash are not)
+  if shape == 'pglist_B':
+    return pg.List([B(x=a), b])
+  if shape == 'pgdict_B':
+    return pg.Dict(k=B(x=a), j=b)
+  if shape == 'cn_B':
+    return Cn(x=B(x=a))
   if shape == 'nest_list':
     return [A(x=a), [b]]
   if shape == 'nest_dict':
@@ -96,6 +104,9 @@ def mk(shape, v):
 
 SHAPES = ['int', 'bool', 'float', 'float_int', 'str', 'none', 'missing', 'list', 'list1', 'pglist', 'tuple', 'dict', 'dict_rev',
           'dict1', 'dict_int', 'pgdict', 'A', 'A1', 'A2', 'B', 'nest_list', 'nest_dict', 'nest_obj', 'nest_none']
+
+
+EXTRA_SHAPES = ['pglist_B', 'pgdict_B', 'cn_B']      # paired with themselves and a few related shapes only
 
 
 def _bounded(*vs):
@@ -129,9 +140,9 @@ def h_pair(params, a0, a1, b0, b1):
   reach('pair')
   # reflexivity (also through a structurally identical second instance)
   x2 = mk(sx, (a0, a1))
-  if not pg.eq(x, x) or (sx != 'B' and not pg.eq(x, x2)):
+  if not pg.eq(x, x) or not pg.eq(x, x2):
     return Violation(f'eq_not_reflexive:{sx}', repr(x))
-  if sx != 'B' and _hash(x) != _hash(x2):
+  if _hash(x) != _hash(x2):
     return Violation(f'hash_differs_for_equal_structure:{sx}', repr(x))
   e_xy, e_yx = pg.eq(x, y), pg.eq(y, x)
   if e_xy != e_yx:
@@ -164,7 +175,7 @@ def h_pair(params, a0, a1, b0, b1):
   lt_xx, viol = _lt(x, x2, f'{sx}|{sx}')
   if viol:
     return viol
-  if lt_xx and sx != 'B':
+  if lt_xx:
     return Violation(f'lt_not_irreflexive:{sx}', repr(x))
   return None
 
@@ -208,6 +219,9 @@ def shards(tier, seed):
   for i, sx in enumerate(SHAPES):
     for sy in SHAPES[i:]:
       out.append(dict(name=f'pair:{sx}|{sy}', fn='h_pair', params=dict(x=sx, y=sy), args=_P, budget_s=b, per_path_s=10))
+  for sx in EXTRA_SHAPES:
+    for sy in (sx, 'pglist', 'pgdict', 'B', 'A'):
+      out.append(dict(name=f'pair:{sx}|{sy}', fn='h_pair', params=dict(x=sx, y=sy), args=_P, budget_s=b, per_path_s=10))
   triples = list(QUICK_TRIPLES)
   if not quick:
     comparable = [['int', 'bool', 'float', 'float_int'], ['list', 'list1', 'pglist', 'nest_list'],
@@ -226,7 +240,7 @@ def shards(tier, seed):
 
 META = dict(
     rule='Shard = ordered pair / triple of value shapes; symbolic: two leaf ints per value.',
-    bounds=['shapes: ' + ', '.join(SHAPES), 'leaf ints in [-2,2] (hashing realizes them), strings from %r' % STRS,
+    bounds=['shapes: ' + ', '.join(SHAPES + EXTRA_SHAPES), 'leaf ints in [-2,2] (hashing realizes them), strings from %r' % STRS,
             'floats n+0.5 and float(n) for symbolic int n', 'all unordered shape pairs; triples: listed core set (quick) / '
             'all triples inside each mutually comparable group (thorough)'],
     stubs=['CrossHair format() of symbolic non-str values returns "<sym>"'],
